@@ -17,8 +17,9 @@ from . import schema_common as sc
 
 PROP = "C18"
 IMPORTS = sc.IMPORTS
-THEOREMS = []
-FACT_LEMMAS = []
+THEOREMS = ["C18_frame", "C18_history", "C18_rules", "C18_concat", "C18_judgement", "C18_rebinding_refuted"]
+FACT_LEMMAS = ["C18.source_add_schema_copies"]
+DEPENDS = ["SchemaHeap.v", "Gen/ProtoGen.v", "Proofs/C18Proof.v", "Proofs/C04Proof.v", "Properties/C18.v", "PathSpec.v", "RuleSpec.v", "DocSem.v", "Py.v", "Rule.v", "RunRule.v", "Path.v", "Cond.v", "Inst.v", "Gen/TablesGen.v", "Gen/CallablesGen.v", "CondHeap.v"]
 ASSUMPTIONS = ["Layer P models CPython's operators (pysem)"]
 
 
